@@ -99,7 +99,7 @@ def pack(out, R, piece, env, V):
     """out[position] = R[v..., e...] for all loop indices."""
     idxs, nb, blens, _ = _index_arrays(piece, env, V)
     if out.ndim == 0:
-        out[()] = np.asarray(R).reshape(())
+        out[()] = np.asarray(R).reshape(-1)[0]
         return
     full = tuple(np.broadcast_to(i, R.shape) for i in idxs)
     out[full] = R
